@@ -630,6 +630,7 @@ func finish(p Property, c *Ctx, ff *FindingsFile, all []Result, start time.Time,
 	broken := harnessBroken
 	var brokenMsgs []string
 	knownHits := map[string]int{}
+	skipSamples := map[string][]string{}
 	var unlisted []Result
 	sort.SliceStable(all, func(i, j int) bool { return all[i].Case < all[j].Case })
 	for i := range all {
@@ -637,6 +638,12 @@ func finish(p Property, c *Ctx, ff *FindingsFile, all []Result, start time.Time,
 		verdicts[r.Verdict]++
 		switch r.Verdict {
 		case Skip:
+			for k, v := range r.Counters {
+				counters["skip:"+k] += v
+				if len(skipSamples[k]) < 4 {
+					skipSamples[k] = append(skipSamples[k], head(r.Message, 300))
+				}
+			}
 			continue
 		case "broken":
 			broken = true
@@ -750,6 +757,7 @@ func finish(p Property, c *Ctx, ff *FindingsFile, all []Result, start time.Time,
 		"known_findings_hit":  knownHits,
 		"unlisted_violations": len(unlisted),
 		"cases_planned":       p.NumCases(c),
+		"skip_samples":        skipSamples,
 	}
 	if ex, ok := p.(Exhaustive); ok && ex.Exhaustive(c) {
 		cov["exhaustive"] = true
